@@ -269,3 +269,118 @@ def parse_model_out(out):
             for kv in line.split()[1:]:
                 k, v = kv.split("=", 1); dist[k] = dist.get(k, 0) + int(v)
     return mism, stats, samples, dist
+
+# ----------------------------------------------------------------------------- generic check driver
+class Ctx:
+    """what a property module gets: tier, seed, budgets, collected problems"""
+    def __init__(self, prop, tier, seed):
+        self.prop, self.tier, self.seed = prop, tier, seed
+        self.failing = []      # direct failures of the property on the implementation: dict(kind, detail, case)
+        self.diffs = []        # model/implementation disagreements (not by themselves violations)
+        self.tie = []          # translator / side-condition problems: dict(kind, detail[, case])
+        self.cov = {}          # coverage counters (summed) and lists
+        self.assume = []
+        self.budget = 1.0
+    def scale(self, quick, thorough):
+        return int((thorough if self.tier == "thorough" else quick) * self.budget)
+    def add_stats(self, stats, samples=None, dist=None):
+        for k, v in stats.items():
+            if isinstance(v, int): self.cov[k] = self.cov.get(k, 0) + v
+        if samples: self.cov.setdefault("samples", []).extend(samples[: max(0, 12 - len(self.cov.get("samples", [])))])
+        if dist:
+            d = self.cov.setdefault("distribution", {})
+            for k, v in dist.items(): d[k] = d.get(k, 0) + v
+    def absorb(self, mism, direct_re=None):
+        """sort MISMATCH records into failing inputs (kind matches direct_re) and model diffs"""
+        for m in mism:
+            rec = {"kind": m["kind"], "detail": m["detail"], "case": m["detail"]}
+            if direct_re is None or re.search(direct_re, m["kind"]): self.failing.append(rec)
+            else: self.diffs.append(rec)
+
+def run_check(prop, module, argv):
+    """module provides: PROP, coq_targets (list of theories/..v or None), translators(ctx, bvh) -> None,
+    engines(ctx, bins) -> None, RULE (str), ASSUMPTIONS (list), needs = dict(profiles=[...])"""
+    t0 = time.time()
+    tier = os.environ.get("VERIF_TIER", "quick")
+    if "--tier" in argv: tier = argv[argv.index("--tier") + 1]
+    if tier not in ("quick", "thorough"): tier = "quick"
+    seed = int(os.environ.get("VERIF_SEED", "20260928") or 0)
+    replay_in = argv[argv.index("--replay") + 1] if "--replay" in argv else None
+    ctx = Ctx(prop, tier, seed)
+    hard = []   # build failures etc. -> violation without failing input
+    bins = {}
+    try:
+        for prof in module.NEEDS.get("profiles", ["debug"]):
+            bins[prof] = ensure_harness(prof)
+    except BuildError as e:
+        hard.append({"kind": "harness-build", "detail": e.what, "log": e.log})
+    # translators -> Gen/*.v
+    if not hard:
+        try: module.translators(ctx, bins)
+        except BuildError as e: hard.append({"kind": "translator", "detail": e.what, "log": e.log})
+    # Coq
+    coqres = ensure_coq()
+    obl = property_obligations(prop, coqres)
+    bad_words = hygiene()
+    if bad_words: ctx.tie.append({"kind": "hygiene", "detail": "forbidden vocabulary: " + ", ".join(bad_words[:10])})
+    if not obl["assumptions_ok"]:
+        ctx.tie.append({"kind": "assumptions", "detail": "Print Assumptions not closed: %s" % json.dumps(obl["assumptions"])[:800]})
+    proof_broken = bool(obl["broken"]) or obl.get("discharged") != obl["stated"]
+    if proof_broken:
+        for b in obl["broken"][:5]:
+            ctx.tie.append({"kind": "proof-obligation", "detail": "%s:%s theorem=%s: %s" % (b["file"], b["line"], b["theorem"], b["msg"][:400])})
+    # engines
+    if not hard:
+        try:
+            mr = ensure_modelrun() if module.NEEDS.get("modelrun", True) else None
+            bins["modelrun"] = mr
+            if replay_in:
+                module.replay(ctx, bins, json.load(open(replay_in)))
+            else:
+                module.engines(ctx, bins)
+                if (ctx.tie or ctx.diffs) and not ctx.failing:
+                    # SEARCH: the tie broke but no failing input yet: larger budget, other seeds
+                    ctx.budget = 10.0; ctx.seed = seed + 1
+                    ctx.cov["search_rounds"] = 1
+                    module.engines(ctx, bins)
+        except BuildError as e:
+            hard.append({"kind": "modelrun-build", "detail": e.what, "log": e.log})
+    # verdict
+    lines, nviol = [], 0
+    def emit(rec, kind, suffix=""):
+        nonlocal nviol
+        k = match_known(prop, rec["kind"], rec["detail"])
+        if k:
+            lines.append("KNOWN-FINDING: property=%s %s" % (prop, k.get("what", rec["kind"])))
+            return
+        p = write_replay(prop, {"property": prop, "kind": kind, "seed": ctx.seed, "tier": tier,
+                                "mismatch": rec["kind"], "detail": rec["detail"], "case": rec.get("case"),
+                                "obligation": rec.get("obligation"), "log": rec.get("log", "")[-3000:]})
+        lines.append("VIOLATION property=%s replay=%s%s" % (prop, p, suffix))
+        nviol += 1
+    seenk = set()
+    for rec in ctx.failing:
+        key = rec["kind"]
+        if key in seenk: continue
+        seenk.add(key); emit(rec, "impl-failing-input")
+    if not ctx.failing:
+        for rec in hard + ctx.tie + ctx.diffs[:3]:
+            rec = dict(rec); rec["obligation"] = rec["detail"]
+            emit(rec, "proof-obligation" if rec["kind"] in ("proof-obligation", "side-condition", "hygiene", "assumptions") else "correspondence",
+                 " no-failing-input-found")
+            break
+    cov = dict(ctx.cov)
+    cov.setdefault("evaluations", 0); cov.setdefault("distinct_nontrivial", 0)
+    cov.update({"obligations": obl["stated"], "discharged": obl.get("discharged") or 0,
+                "checker_cmd": "make -C /verif/coq (coq_makefile, full .vo) && coqc theories/Properties/%s.v (Print Assumptions) ; ./check %s --tier %s" % (prop, prop, tier),
+                "trusted_base": TRUSTED_BASE + getattr(module, "TRUSTED_EXTRA", []),
+                "theorems": [{"name": n, "assumptions": obl["assumptions"].get(n, "n/a (Example or not printed)"),
+                              "status": "proved" if not proof_broken else "see broken"} for n in obl["theorems"]],
+                "broken_obligations": ctx.tie, "model_diffs": ctx.diffs[:10], "failing_inputs": ctx.failing[:10],
+                "rule": module.RULE, "known_findings_open": [k for k in load_known() if k.get("property") == prop and k.get("status") == "open"]})
+    if not cov.get("samples"): cov["samples"] = obl["theorems"][:5]
+    write_evidence(prop, tier, seed, "proof", cov, module.ASSUMPTIONS + ctx.assume, time.time() - t0, nviol)
+    for l in lines: print(l)
+    print("%s %s: obligations %d/%d, evaluations %d, failing %d, diffs %d, tie-problems %d, %.1fs" % (
+        prop, tier, cov["discharged"], cov["obligations"], cov["evaluations"], len(ctx.failing), len(ctx.diffs), len(ctx.tie) + len(hard), time.time() - t0))
+    return 1 if nviol else 0
